@@ -15,6 +15,7 @@ Section Timely.
     | EClock t => s_now s <= t                              (* the clock does not go backwards *)
     | EStart sk => idle Q s = true /\ match sk with Some t => s_now s <= t | None => True end
     | EFire => match s_pending s with (_, d) :: _ => d <= s_now s | [] => True end   (* not fired early *)
+    | ERun (KSyncClock t) => s_now s <= t                   (* time passes while the callback runs *)
     | _ => True
     end.
 
@@ -116,6 +117,17 @@ Section Timely.
           -- rewrite deadlines_app. simpl. rewrite D1, G1. intros d [].
         * intros _. split; [|intros d []].
           unfold K in *; simpl. destruct (s_next s) as [nx|]; [|exact I]. right. right. exact HK'.
+        * unfold tcond in Hcond.
+          match goal with |- context [schedule_next _ ?x] =>
+            destruct (sn_cases ct jitter x) as [(G1 & G2)|(nx & h & G1 & G2 & G3 & G4)];
+            destruct (schedule_next updq x) as [s2 o] end; simpl in *; intro Hp.
+          -- subst s2. rewrite G1. split; [|intros d []].
+             unfold K in *; simpl. destruct (s_next s) as [nx|]; [|exact I]. right. right.
+             eapply Qle_trans; [exact HK'|exact Hcond].
+          -- subst s2. rewrite G3. simpl. rewrite G2 in HK'. split.
+             ++ unfold K; simpl. right. left. rewrite Hp0. eexists. reflexivity.
+             ++ intros d [E|[]]. subst d. split; [apply update_after_now; exact Hp|].
+                apply update_within_period; [assumption|]. eapply Qle_trans; [exact HK'|exact Hcond].
       + intros _. split; [|intros d []].
         unfold K in *; simpl. destruct (s_next s); [left; reflexivity|exact I].
     - (* completion of the awaited callback *)
